@@ -257,7 +257,6 @@ func (x *Exec) callByContract(st *State, fn *ssa.Function, con *Contract, args [
 		}
 	}
 	// havoc the callee's frame, move the allocation frontier
-	oldTop := st.top
 	if len(locs) > 0 {
 		ls := locs
 		x.havoc(st, func(name string) bool {
@@ -275,7 +274,7 @@ func (x *Exec) callByContract(st *State, fn *ssa.Function, con *Contract, args [
 				}
 				in := tb.Eq(key[0], l.ref)
 				if l.lo != nil && len(key) > 1 {
-					in = tb.And(in, tb.Cmp("bvule", l.lo, key[1]), tb.Cmp("bvult", key[1], l.hi))
+					in = tb.And(in, tb.Cmp("bvult", tb.Sub(key[1], l.lo), tb.Sub(l.hi, l.lo)))
 				}
 				c = tb.Or(c, in)
 			}
@@ -283,11 +282,7 @@ func (x *Exec) callByContract(st *State, fn *ssa.Function, con *Contract, args [
 		})
 	}
 	if !con.NoAlloc {
-		x.nsym++
-		ntop := tb.Var(fmt.Sprintf("top!%d", x.nsym), 64)
-		x.fact(tb.Cmp("bvule", oldTop, ntop))
-		x.fact(tb.Cmp("bvult", ntop, tb.BV(64, 1<<62)))
-		st.top = ntop
+		x.bumpTop(st)
 	}
 	// results
 	var res []*Val
@@ -298,19 +293,101 @@ func (x *Exec) callByContract(st *State, fn *ssa.Function, con *Contract, args [
 			hint = fn.Name() + "_" + con.ResultNames[i]
 		}
 		v := x.fresh(rs.At(i).Type(), hint)
-		for _, f := range x.validity(v, st.top) {
+		for _, f := range x.validity(v, x.refOK(st)) {
 			x.fact(f)
 		}
 		res = append(res, v)
 	}
+	var gs []*Term
 	for _, c := range clos {
 		g, err := x.callClosureBool(st, c, res, true)
 		if err != nil {
 			return nil, err
 		}
 		x.assumeIn(st, g)
+		gs = append(gs, g)
 	}
+	// definitional postconditions: `result == t` replaces the fresh result by t, and
+	// `heap-location == t` for a location this call havocked becomes a store, so that later
+	// address arithmetic folds syntactically instead of through solver equalities.
+	x.applyDefinitions(st, gs, res)
 	return res, nil
+}
+
+func conjuncts(t *Term, out []*Term) []*Term {
+	if t.Op == "and" {
+		for _, a := range t.Args {
+			out = conjuncts(a, out)
+		}
+		return out
+	}
+	return append(out, t)
+}
+
+func mentions(t, v *Term) bool {
+	seen := map[int]bool{}
+	var rec func(t *Term) bool
+	rec = func(t *Term) bool {
+		if t == v {
+			return true
+		}
+		if seen[t.id] {
+			return false
+		}
+		seen[t.id] = true
+		for _, a := range t.Args {
+			if rec(a) {
+				return true
+			}
+		}
+		return false
+	}
+	return rec(t)
+}
+
+func (x *Exec) applyDefinitions(st *State, gs []*Term, res []*Val) {
+	type slot struct {
+		v *Val
+		i int
+	}
+	rv := map[int]slot{}
+	for _, r := range res {
+		for i, c := range r.C {
+			if c.Op == "var" {
+				rv[c.id] = slot{r, i}
+			}
+		}
+	}
+	var cs []*Term
+	for _, g := range gs {
+		cs = conjuncts(g, cs)
+	}
+	for _, c := range cs {
+		if c.Op != "=" {
+			continue
+		}
+		for k := 0; k < 2; k++ {
+			l, r := c.Args[k], c.Args[1-k]
+			if l.Op == "var" {
+				if s, ok := rv[l.id]; ok && s.v.C[s.i] == l && !mentions(r, l) {
+					s.v.C[s.i] = r
+					break
+				}
+			}
+			if l.Op == "uf" && !mentions(r, l) {
+				// an application of a base created by the most recent havoc?
+				if name, ok := x.freshBaseName[l.Name]; ok {
+					if m, ok := st.heaps[name]; ok && len(l.Args) == m.arity {
+						cur := m.Select(x, l.Args)
+						if cur == l {
+							st.heaps[name] = m.Store(x.tb, l.Args, r)
+							break
+						}
+					}
+				}
+			}
+		}
+	}
 }
 
 // locInFrame: location l is covered by the unit's own frame (or is fresh).
@@ -327,12 +404,13 @@ func (x *Exec) locInFrame(l frameLoc) *Term {
 				continue
 			}
 			// [l.lo, l.hi) within [f.lo, f.hi) or empty
-			in = tb.And(in, tb.Or(tb.Cmp("bvule", l.hi, l.lo), tb.And(tb.Cmp("bvule", f.lo, l.lo), tb.Cmp("bvule", l.hi, f.hi))))
+			ln, fn := tb.Sub(l.hi, l.lo), tb.Sub(f.hi, f.lo)
+			in = tb.And(in, tb.Or(tb.Eq(ln, tb.BV(64, 0)), tb.And(tb.Cmp("bvule", ln, fn), tb.Cmp("bvule", tb.Sub(l.lo, f.lo), tb.Sub(fn, ln)))))
 		}
 		g = tb.Or(g, in)
 	}
 	if l.lo != nil {
-		g = tb.Or(g, tb.Cmp("bvule", l.hi, l.lo))
+		g = tb.Or(g, tb.Eq(l.hi, l.lo))
 	}
 	return g
 }
@@ -351,7 +429,7 @@ func (x *Exec) builtin(st *State, b *ssa.Builtin, com *ssa.CallCommon, args []*V
 		case *types.Map:
 			mt := com.Args[0].Type().Underlying().(*types.Map)
 			l := tb.App("maplen:"+typeKey(mt), 64, a.C[0], x.mapVersion(st, mt))
-			x.fact(tb.Cmp("bvule", l, tb.BV(64, 1<<48)))
+			x.fact(tb.Cmp("bvule", l, tb.BV(64, 1<<sizeBits-1)))
 			x.fact(tb.Implies(tb.Eq(a.C[0], tb.BV(64, 0)), tb.Eq(l, tb.BV(64, 0))))
 			return x.intVal(l), nil
 		}
@@ -433,9 +511,8 @@ func (x *Exec) appendOp(st *State, com *ssa.CallCommon, args []*Val, pos token.P
 	grow := st
 	r := x.alloc(grow, "grown")
 	x.nsym++
-	ncap := tb.Var(fmt.Sprintf("cap!%d", x.nsym), 64)
+	ncap := tb.ZExt(64, tb.Var(fmt.Sprintf("cap!%d", x.nsym), sizeBits))
 	x.fact(tb.Cmp("bvule", newLen, ncap))
-	x.fact(tb.Cmp("bvule", ncap, tb.BV(64, 1<<48)))
 	// Go's growth policy: at most doubling plus rounding to a size class (trusted bound)
 	x.fact(tb.Cmp("bvule", ncap, tb.Add(tb.Bin("bvmul", tb.BV(64, 2), newLen), tb.BV(64, 64))))
 	x.bulkCopy(grow, et, r, tb.BV(64, 0), s.C[2], s.C[0], s.C[1])
@@ -518,6 +595,22 @@ func init() {
 	intrinsics["gocv_forall"] = hForall
 	intrinsics["gocv_view"] = hView
 	intrinsics["gocv_sameArr"] = hSameArr
+	intrinsics["byteAt"] = func(x *Exec, st *State, fn *ssa.Function, args []*Val, pos token.Pos) ([]*Val, error) {
+		p, i := args[0], args[1].C[0]
+		v := x.load(st, &Addr{prefix: elemPrefix(types.Typ[types.Byte]), keys: []*Term{p.C[0], x.tb.Add(p.C[1], i)}}, types.Typ[types.Byte])
+		return []*Val{v}, nil
+	}
+	intrinsics["gocv_strview"] = func(x *Exec, st *State, fn *ssa.Function, args []*Val, pos token.Pos) ([]*Val, error) {
+		tb := x.tb
+		b, s := args[0], args[1]
+		return []*Val{x.boolVal(tb.And(tb.Eq(b.C[2], s.C[2]), tb.Eq(b.C[3], s.C[2]),
+			tb.Or(tb.Eq(s.C[2], tb.BV(64, 0)), tb.And(tb.Eq(b.C[0], s.C[0]), tb.Eq(b.C[1], s.C[1])))))}, nil
+	}
+	intrinsics["gocv_strAliases"] = func(x *Exec, st *State, fn *ssa.Function, args []*Val, pos token.Pos) ([]*Val, error) {
+		tb := x.tb
+		s, b := args[0], args[1]
+		return []*Val{x.boolVal(tb.And(tb.Ne(s.C[2], tb.BV(64, 0)), tb.Eq(s.C[0], b.C[0])))}, nil
+	}
 	intrinsics["gocv_fresh"] = hFresh
 	intrinsics["gocv_reach"] = hReach
 	intrinsics["gocv_wrapped"] = hWrapped
@@ -551,7 +644,7 @@ func hReach(x *Exec, st *State, fn *ssa.Function, args []*Val, pos token.Pos) ([
 	if x.ghost > 0 {
 		return nil, nil
 	}
-	o := &Oblig{Name: x.unit + "#reach." + name, Kind: "reach", Func: x.unit, Pos: x.posStr(pos), PC: st.pc, Goal: x.tb.False, NHyps: len(x.assumes), ExpectSat: true}
+	o := &Oblig{Name: x.unit + "#reach." + name, Kind: "reach", Func: x.unit, Pos: x.posStr(pos), PC: x.full(st), Goal: x.tb.False, NHyps: len(x.assumes), ExpectSat: true}
 	x.obligs = append(x.obligs, o)
 	return nil, nil
 }
@@ -645,7 +738,7 @@ func hForall(x *Exec, st *State, fn *ssa.Function, args []*Val, pos token.Pos) (
 	inRange := func(i *Term) *Term { return tb.And(tb.Cmp("bvsle", lo, i), tb.Cmp("bvslt", i, hi)) }
 	if x.assume > 0 {
 		// hypothesis: instantiate later at goal skolems and hints; instantiate now at hints
-		p := &pendingForall{guard: st.pc, lo: lo, hi: hi}
+		p := &pendingForall{guard: x.full(st), lo: lo, hi: hi}
 		// the body must be evaluated in the state at assumption time: snapshot
 		snap := st.clone()
 		p.body = func(i *Term) (*Term, error) {
@@ -712,7 +805,9 @@ func hView(x *Exec, st *State, fn *ssa.Function, args []*Val, pos token.Pos) ([]
 }
 
 func hSameArr(x *Exec, st *State, fn *ssa.Function, args []*Val, pos token.Pos) ([]*Val, error) {
-	return []*Val{x.boolVal(x.tb.Eq(args[0].C[0], args[1].C[0]))}, nil
+	tb := x.tb
+	a, b := args[0], args[1]
+	return []*Val{x.boolVal(tb.And(tb.Ne(a.C[2], tb.BV(64, 0)), tb.Ne(b.C[2], tb.BV(64, 0)), tb.Eq(a.C[0], b.C[0])))}, nil
 }
 
 // gocv_fresh(x): the reference was allocated after the unit's entry (or is nil/empty).
